@@ -214,6 +214,54 @@ pub fn cli_codec(ctx: &mut Ctx) {
         let r = cv::xattr_value_parse(&s);
         ctx.case(json!({"codec":"xval","dir":"parse-hostile"}), format!("xval.parse {}", hexw(s.as_bytes())), match &r { Ok(b) => format!("ok {}", hexw(b)), Err(_) => "err".into() }, true);
     }
+    // ---------- chmod mode strings: parse + apply against the model
+    {
+        let fixed = ["u+x", "go-rw", "a=rwx", "=r", "+x", "-w", "755", "000", "777", "888", "0755", "75", "ug", "", "u+rwxq", "x+r", "u+", "+", "rwx", "u=rw=x", "７５５", "a", "ugoa+rwx", "uu=rr", "o=", "g-", "7 5", "u +x", "U+x", "u+X", "644", "u=rwx,g=rx"];
+        let who = ['u', 'g', 'o', 'a', 'x', '+'];
+        let ops = ['+', '-', '=', '=', ' '];
+        let perms = ['r', 'w', 'x', 'X', 's', '7'];
+        let nn = if ctx.thorough { 20000 } else { 2500 };
+        for i in 0..nn {
+            let text: String = if i < fixed.len() { fixed[i].to_string() } else if i % 5 == 0 {
+                (0..3).map(|_| char::from(b'0' + rng.gen_range(0..10u8))).collect()
+            } else {
+                let mut t = String::new();
+                for _ in 0..rng.gen_range(0..4) { let k = if rng.gen_bool(0.9) { 4 } else { 6 }; t.push(who[rng.gen_range(0..k)]); }
+                let k = if rng.gen_bool(0.95) { 4 } else { 5 };
+                t.push(ops[rng.gen_range(0..k)]);
+                for _ in 0..rng.gen_range(0..4) { let k = if rng.gen_bool(0.9) { 3 } else { 6 }; t.push(perms[rng.gen_range(0..k)]); }
+                t
+            };
+            let x: u16 = [0o644u16, 0o755, 0, 0o777, 0o7777, 0o4755, u16::MAX, rng.gen()][rng.gen_range(0..8)];
+            let r = cv::chmod_apply(&text, x);
+            ctx.case(json!({"codec":"chmod-mode"}), format!("chmod.apply {} {x}", hexw(text.as_bytes())), match &r { Ok(v) => format!("ok {v}"), Err(_) => "err".into() }, true);
+            // idempotence at the text level
+            if let Ok(v) = r {
+                ctx.oracle_eval();
+                if cv::chmod_apply(&text, v) != Ok(v) {
+                    ctx.violation("C10", "applying the same chmod mode twice changes the mode again", json!({"mode":text,"start":x,"once":v,"twice":format!("{:?}", cv::chmod_apply(&text, v))}));
+                }
+            }
+        }
+    }
+    // ---------- multipart file names: correspondence with the model on simple paths
+    {
+        let comps = ["a", "archive", "my.backup", ".hidden", "a.part3", "x.tar", "a.PNA", "name.part", "a.partx", "ünï", "a b", "a.pna", "v1.2.pna", "a.part12.pna", "a.part.pna", "a.partition.pna", "..pna", "a.", "a..pna", ".pna", "a.part1", "a.tar.gz", "...x", "a.part07.Pna", "part1.pna", ".part1.pna"];
+        let dirs = ["", "dir/", "dir.d/", "/abs/p/", "a.part1.pna/", "../"];
+        let nn = if ctx.thorough { 4000 } else { 600 };
+        for i in 0..nn {
+            let p = format!("{}{}", dirs[rng.gen_range(0..dirs.len())], if i < comps.len() { comps[i] } else { comps[rng.gen_range(0..comps.len())] });
+            let n = [1usize, 2, 9, 10, 11, 100, 65535, 0][rng.gen_range(0..8)];
+            let w = cv::with_part_n(&p, n);
+            ctx.case(json!({"codec":"part","dir":"with"}), format!("part.with {} {n}", hexw(p.as_bytes())), match &w { Some(w) => format!("ok {}", hexw(w.as_bytes())), None => "none".into() }, true);
+            let r = cv::remove_part_n(&p);
+            ctx.case(json!({"codec":"part","dir":"remove"}), format!("part.remove {}", hexw(p.as_bytes())), match &r { Some(w) => format!("ok {}", hexw(w.as_bytes())), None => "none".into() }, true);
+            if let Some(w) = w {
+                let r = cv::remove_part_n(&w);
+                ctx.case(json!({"codec":"part","dir":"remove-of-with"}), format!("part.remove {}", hexw(w.as_bytes())), match &r { Some(w) => format!("ok {}", hexw(w.as_bytes())), None => "none".into() }, true);
+            }
+        }
+    }
     // ---------- multipart file names (implementation-level oracles)
     let stems = ["a", "archive", "my.backup", ".hidden", "a.part3", "x.tar", "dir.d/a", "/abs/p", "a.PNA", "name.part", "a.partx", "ünï", "a b"];
     for stem in stems {
